@@ -116,12 +116,35 @@ int pem_read(FILE *fp, const char *name, uint8_t *data, size_t *datalen, size_t 
 			break;
 		}
 
-		base64_decode_update(&ctx, (uint8_t *)line, (int)strlen(line), data, &len);
+		// decode into a local buffer: the text may be malformed and must not overrun the caller's maxlen bytes
+		{
+			uint8_t buf[80];
+			if (base64_decode_update(&ctx, (uint8_t *)line, (int)strlen(line), buf, &len) < 0) {
+				error_print();
+				return -1;
+			}
+			if (len < 0 || (size_t)len > maxlen - *datalen) {
+				error_print();
+				return -1;
+			}
+			memcpy(data, buf, len);
+		}
 		data += len;
 		*datalen += len;
 	}
 
-	base64_decode_finish(&ctx, data, &len);
+	{
+		uint8_t buf[80];
+		if (base64_decode_finish(&ctx, buf, &len) != 1) {
+			error_print();
+			return -1;
+		}
+		if (len < 0 || (size_t)len > maxlen - *datalen) {
+			error_print();
+			return -1;
+		}
+		memcpy(data, buf, len);
+	}
 	*datalen += len;
 	return 1;
 }
